@@ -181,3 +181,11 @@ pub fn flagnames(f: i64) -> String {
     if f & O_SYNC == O_SYNC { v.push("O_SYNC"); } else if f & O_DSYNC != 0 { v.push("O_DSYNC"); }
     v.join("|")
 }
+
+/// Which flavour of the Rust API performs the operations of work item `idx` (proto::Op::via): the borrowed RootRef, the owned
+/// Root's own methods, or a clone made through either - rotated over the items, with a different phase per check, so that every
+/// flavour meets every operation and a good part of the trees in each check, and C01/C04 (C14/C04) together cover each tree twice.
+pub fn api_flavour(prop: &str, idx: usize) -> Option<String> {
+    let off = match prop { "C04" => 2, "C12" => 1, "C13" => 3, _ => 0 };
+    match (idx + off) % 4 { 0 => None, 1 => Some("owned".into()), 2 => Some("clone".into()), _ => Some("clone2".into()) }
+}
